@@ -147,6 +147,11 @@ def group_enclosed_expressions(tokens: Sequence[Token]) -> TokenTree:
             openers.append((i, token))
 
         elif token.type in (TokenType.CLOSE_BRACKET, TokenType.CLOSE_PARENS):
+            if not openers:
+                raise XPathParsingError(
+                    position=token.position,
+                    message=f"Closing `{token.string}` has no opening counterpart.",
+                )
             start_pos, start_token = openers.pop()
 
             if token.type is not COMPLEMENTING_TOKEN_TYPES[start_token.type]:
